@@ -180,7 +180,28 @@ func connectStream(a, b *netceptor.Netceptor, cost float64, r *Rng, st *shaperSt
 	if err := b.AddBackend(bb, netceptor.BackendConnectionCost(cost)); err != nil {
 		return err
 	}
-	ba.NewConnection(&tapConn{netceptor.MessageConnFromNetConn(a1), tapAB}, true)
-	bb.NewConnection(&tapConn{netceptor.MessageConnFromNetConn(b1), tapBA}, true)
+	// the connection handed to the real node returns, now and then, the bytes it read together with
+	// a deadline error (an external connection may do that; io.Reader allows it)
+	ba.NewConnection(&tapConn{netceptor.MessageConnFromNetConn(&quirkConn{Conn: a1, rng: NewRng(r.U64())}), tapAB}, true)
+	bb.NewConnection(&tapConn{netceptor.MessageConnFromNetConn(&quirkConn{Conn: b1, rng: NewRng(r.U64())}), tapBA}, true)
 	return nil
+}
+
+type quirkConn struct {
+	net.Conn
+	rng *Rng
+	mu  sync.Mutex
+}
+
+func (q *quirkConn) Read(p []byte) (int, error) {
+	n, err := q.Conn.Read(p)
+	if err == nil && n > 0 {
+		q.mu.Lock()
+		quirk := q.rng.Chance(15)
+		q.mu.Unlock()
+		if quirk {
+			return n, timeoutErr{}
+		}
+	}
+	return n, err
 }
